@@ -192,6 +192,15 @@ Proof.
 Qed.
 Print Assumptions C07_dead_on_release.
 
+(* Open() on a pool that is already Closed (its deferred _OpenImpl greenlet starts only after Close()) fails at once:
+   no connection is created or opened, nothing is closed, and the pool's state is untouched - so a closed pool makes
+   no connect attempt (the part of C09's "no reconnection attempts after close" that lives in the pool). *)
+Theorem C07_closed_pool_open_inert : forall cf ls st tr,
+  0 <= cmax cf -> reach cf ls = (st, tr) -> pstate st = 4 ->
+  step cf st OpenPool = (st, [OOpenResult false]).
+Proof. intros cf ls st tr _ _ Hc. cbn [step]. now rewrite Hc. Qed.
+Print Assumptions C07_closed_pool_open_inert.
+
 (* ---- non-vacuity: a concrete history exercising queueing, MaxWaitersError, a time-out while queued, the
    hand-off that skips the expired waiter, and (second example) a dead connection on release. *)
 Definition cf112 : config := {| cmin := 1; cmax := 1; cmaxq := 2 |}.
@@ -207,3 +216,7 @@ Example C07_nonvacuous_dead_release :
   extract (fun e : Z * Z => snd e =? 0) (lent st) = Some ((0, 0), []) /\ pstate st <> 4 /\ sstate st 0 = 4 /\
   snd (step cf112 st (Resp 0)) = [ODropped 0; OError 2 EServiceClosed; ODone 0].
 Proof. vm_compute. splits; try reflexivity. discriminate. Qed.
+
+Example C07_nonvacuous_open_after_close :
+  snd (reach cf112 [ClosePool; OpenPool]) = [OOpenResult false] /\ nsink (fst (reach cf112 [ClosePool; OpenPool])) = 0.
+Proof. vm_compute. split; reflexivity. Qed.
